@@ -94,6 +94,8 @@ func faultRank(f Fault) int {
 		return 0
 	case f.Field == "Raw" || f.How == "random":
 		return 2
+	case f.Field == "Stream": // closing the stream early comes last: it cuts whatever is being sent
+		return 3
 	}
 	return 1
 }
